@@ -366,6 +366,63 @@ Lemma c02_rtsp_wait_kept_before_play :
   out_of (cfg0 0) h' 1 = Some [LSdp 0].
 Proof. vm_compute. split; reflexivity. Qed.
 
+(* F-34.  The classifier (IsAvcBoundary / IsHevcBoundary) judges payload bytes only: on the tree before the fix
+   its verdict alone opened the gate, also for AUDIO packets.  Witness: a G.711 packet (PT 97) whose first sample
+   byte is 0x65 (reads as an IDR slice header), resp. an Opus packet with TOC 0x26 under H.265 (reads as IDR_W_RADL):
+   the waiting session is released mid-GOP and receives the audio packet and the inter frames that follow;
+   on the fixed tree (lal 871e5a0) it keeps waiting for the key frame. *)
+Definition rtp_audio (seq b0 : N) : bytes := [128; 97; 0; seq; 0; 0; 46; 224; 17; 34; 51; 68; b0; 213; 85; 213].
+Definition rtp_hnon (seq : N) : bytes := [128; 96; 0; seq; 0; 0; 46; 224; 17; 34; 51; 68; 2; 1; 208; 9].
+Definition rtp_hidr (seq : N) : bytes := [128; 96; 0; seq; 0; 0; 46; 224; 17; 34; 51; 68; 38; 1; 175; 8].
+Lemma c02_rtsp_audio_opens_gate_pinned_refuted :
+  let a := rtp_audio 1 101 in
+  rtp_pt a = Some 97 /\ rtp_is_video 97 = false /\ rtp_verdict VAvc a = true /\
+  let h := [EvInStart; EvPublish (vmsg 23 0 1); EvSdp VAvc; EvJoin KRtsp 1; EvPlay 1;
+            EvRtp a; EvRtp (rtp_non 2); EvRtp (rtp_idr 3); EvRtp (rtp_non 4)] in
+  option_map c_out (find_sub (run_pinned (cfg0 0) h) 1) = Some [LSdp 0; LRtp 0; LRtp 1; LRtp 2; LRtp 3] /\
+  out_of (cfg0 0) h 1 = Some [LSdp 0; LRtp 2; LRtp 3] /\
+  let o := rtp_audio 1 38 in
+  rtp_verdict VHevc o = true /\
+  let h' := [EvInStart; EvPublish (vmsg 28 0 1); EvSdp VHevc; EvJoin KRtsp 1; EvPlay 1;
+             EvRtp o; EvRtp (rtp_hnon 2); EvRtp (rtp_hidr 3)] in
+  option_map c_out (find_sub (run_pinned (cfg0 0) h') 1) = Some [LSdp 0; LRtp 0; LRtp 1; LRtp 2] /\
+  out_of (cfg0 0) h' 1 = Some [LSdp 0; LRtp 2].
+Proof. vm_compute. repeat split; reflexivity. Qed.
+
+(* With the fix, over ALL histories.  A packet is a GOP start only if it belongs to the video track and the
+   classifier says so (when the SDP in force announces H.264 / H.265); an audio packet never is, whatever its bytes. *)
+Theorem c02_rtsp_gate_is_video : forall s raw pt,
+  rtp_pt raw = Some pt -> g_vcodec s <> VOther ->
+  (rtp_is_video pt = false -> rtp_boundary_at s raw = false) /\
+  (rtp_boundary_at s raw = true -> rtp_is_video pt = true /\ rtp_verdict (g_vcodec s) raw = true).
+Proof.
+  intros s raw pt Hpt Hv. split; [intro Ha; now apply (audio_never_boundary s raw pt)|].
+  intro Hb. destruct (boundary_at_inv s raw Hb) as (pt' & Hpt' & _ & H). rewrite Hpt in Hpt'. inversion Hpt'; subst pt'. now apply H.
+Qed.
+Print Assumptions c02_rtsp_gate_is_video.
+
+(* For every history h0 after which an RTSP session plays and waits (PLAY while the group knows a video codec,
+   c02_fresh_rtsp) and EVERY continuation h in which it stays attached: either it has received nothing at all -
+   audio included - and still waits, or h splits at the first packet that passed the gate: nothing before it, that
+   packet first, then one unit per forwarded packet; and when the SDP in force announces H.264 / H.265 that first
+   packet is a packet of the video track that the classifier judged a GOP start (and it was delivered).
+   So the first video-track packet the session receives starts a GOP and nothing precedes it. *)
+Theorem c02_rtsp_first_video_is_gop_start : forall cf h0 h id c,
+  cf_rtsp_wait cf = true ->
+  find_sub (run cf h0) id = Some c -> c_kind c = KRtsp -> c_fresh c = false -> c_wait c = true ->
+  attached id KRtsp h ->
+  find_sub (run cf (h0 ++ h)) id = Some c \/
+  exists h1 raw pt h2,
+    h = h1 ++ EvRtp raw :: h2 /\ quiet cf (run cf h0) h1 /\ rtp_pt raw = Some pt /\
+    let s1 := run cf (h0 ++ h1) in
+    g_sdp s1 <> None /\
+    (g_vcodec s1 <> VOther ->
+       rtp_is_video pt = true /\ rtp_verdict (g_vcodec s1) raw = true /\ rtp_unit (g_next_rtp s1) raw = [LRtp (g_next_rtp s1)]) /\
+    exists c', find_sub (run cf (h0 ++ h)) id = Some c' /\ rtsp_admitted cf c' = true /\
+               c_out c' = c_out c ++ rtp_unit (g_next_rtp s1) raw ++ rtp_units (S (g_next_rtp s1)) h2.
+Proof. exact rtsp_first_received. Qed.
+Print Assumptions c02_rtsp_first_video_is_gop_start.
+
 (* non-vacuity of the RTSP theorems: a session that plays and waits, a quiet stretch, a GOP start *)
 Example c02_rtsp_nonvacuous :
   let h0 := [EvJoin KRtsp 1; EvInStart; EvPublish (vmsg 23 0 1); EvSdp VAvc; EvPlay 1] in
